@@ -20,9 +20,13 @@ Index patterns: every way of identifying index positions between and within the 
 positions), operand ranks (1..3,1..3) in the quick tier, up to 4 in the thorough tier.  Extents are drawn from
 {1,2,3,V,V+1} (V = SIMD width of the type under the ISA) with *distinct extents on distinct free indices*, so that a
 transposed result cannot have the right type by accident; patterns with more free indices than that set has members draw
-the missing extents from 4,5,6,...; patterns whose smallest admissible instance exceeds the size budget (loop nest
-> LOOPS iterations or > OUT result elements or product table > 4096 entries: e.g. outer products with >= 7 free indices)
-are not generated (counted in evidence_extra).  Index *labels* are arbitrary numbers (the explicit-output form sorts by
+the missing extents from 4,5,6,....  Size budget per case (symbolic execution of the loop nest under --dfcc is the cost): quick
+<= 100 loop-nest iterations, <= 64 result elements, <= 24 terms per element; thorough 240 / 200 / 40; operands <= 600 elements,
+product table <= 4096 entries.  For patterns whose smallest admissible instance is larger (many free indices) the first two
+limits are relaxed by 2x (quick) / 3.2x (thorough); patterns still over budget are not generated (outer-like patterns with 6
+free indices in the quick tier, with >= 7 in the thorough tier; counted in evidence_extra).  Cases with more than 120 loop
+iterations ask for the assertion form of the same clauses directly (the DFCC-instrumented program would time out first).
+Index *labels* are arbitrary numbers (the explicit-output form sorts by
 label value), so half of the cases use a random injective relabelling.
 
 Families (case id = C03/<family>/<type>/<L0>,<L1>[-><O>]/<extents>/<cfg>):
@@ -49,6 +53,14 @@ Not generated because the unit is rejected by the compiler on the unchanged tree
   CONTRACT_OPT=-2   contraction.h:371 uses Index<>::NoIndices, which does not exist
   CONTRACT_OPT=-1,-3   internal variants: 'unknown type name V' under FASTOR_DONT_VECTORISE (contraction.h:461, :327); -3 additionally
                rejects reductions by static_assert and evaluates get_indices(..., -1) in a constant expression for some patterns
+Also left out: strided_contraction<I0,I1>(a,b) (strided_contraction.h) -- not reachable from einsum (the dispatch in einsum.h is
+commented out) and not instantiable (general_stride_finder calls contains() on a std::array: einsum_meta.h:500).
+Families that fail on the unchanged tree (genuine defects, native replay reproduces; reported, not repaired here):
+  <api>-diag-blastv   is_vectorisable (einsum_meta.h) only asks whether the last index of the second list occurs in the *first*
+                      list; when it occurs earlier in the second list the loop nest still vector-loads b / stores out along it
+                      (wrong sums, reads/writes past the operands)
+  einsum-diag-disp, explicit-diag-disp   is_generalised_matrix_vector / vector_matrix / matrix_matrix (einsum_meta.h) ignore internal
+                      repeats: the pattern is sent to _matmul on the flattened operands
 """
 import os, re
 from units.common import *
